@@ -121,6 +121,8 @@ def dispatch (op : String) (args : List String) : String :=
   | "gparse" => AlgoRun.handleParse args
   | "greadfront" => AlgoRun.handleReadFront args
   | "gprologue" => AlgoRun.handlePrologue args
+  | "gtreefromswc" => AlgoRun.handleTreeFromSwc args
+  | "gtreefromeswc" => AlgoRun.handleTreeFromEswc args
   | "gtosubtree" | "gcutenter" | "gcutdepth" | "gcutleave" | "gcutleaveset" | "gcuttype" | "gcutorder" => AlgoRun.handleCut op args
   | "gcuttip" => AlgoRun.handleShortTip op args
   | "gsubimpl" => AlgoRun.handleSubImpl args
